@@ -1,4 +1,22 @@
 import PeptVerif.Lemmas.Reorder
+/-!
+# C11 — reordering and cutting a peptide moves modifications with their residues
+
+Property theorems only. Left-hand sides are the models of `ProFormaAnnotation.slice / reverse / shift / shuffle /
+sort_residues / split` (`Model/Reorder.lean`, tied to /repo by the correspondence run of `./check C11`; the model follows
+the code after the five `fix:` commits listed in known_findings.json).
+`residues a : List (Char × List Mod)` is the peptide as a list of residues, each with its own modifications.
+
+Domain hypotheses and why they are there
+* `KeysOK a`: residue-modification keys are distinct (a Python dict) and are positions of the sequence. Outside it
+  `shuffle` / `sort_residues` raise KeyError and `shift` merges entries (`k` and `k+n` collide) — modelled, not in the domain.
+* `a.seq ≠ []` for shift / shuffle (ZeroDivisionError / ValueError on the empty sequence — modelled).
+* `a.internal ≠ some []` in the *identity* laws: `{}` is normalised to `None` by reverse / shift (not observable through
+  the API, `==` treats both alike).
+* `a.intervals = none` in the shift identities: FALSE with intervals on the current code (known finding
+  KF-C11-shift-intervals, `shift_identity_full_false_on_current_code`).
+* `perm.Perm (List.range n)`: the permutation argument of `shuffle` is the outcome of `random.shuffle` on the positions.
+-/
 namespace Pept.Reorder.C11
 
 theorem slice_inplace_eq (a : Annotation) (s e : Int) : sliceInplace a s e = slice a s e := by
@@ -7,10 +25,12 @@ theorem slice_inplace_eq (a : Annotation) (s e : Int) : sliceInplace a s e = sli
   · obtain ⟨⟨⟨⟨⟨⟨⟨⟨⟨h1, h2⟩, h3⟩, h4⟩, h5⟩, h6⟩, h7⟩, h8⟩, h9⟩, h10⟩ := h
     cases a; simp_all
   · split <;> split <;> simp_all
+example : sliceInplace demo 0 3 = slice demo 0 3 ∧ (slice demo 0 3).cterm = none := by decide
 
 theorem slice_residues (a : Annotation) (s e : Nat) (hs : s ≤ e) (he : e ≤ a.seq.length) :
     residues (slice a s e) = ((residues a).drop s).take (e - s) :=
   residues_slice a s e hs he
+example : residues (slice demo (1 : Nat) (4 : Nat)) = [('E', []), ('P', []), ('T', [⟨.int 16, 2⟩])] := by decide
 
 theorem reverse_residues (a : Annotation) (sw : Bool) : residues (reverse a sw) = (residues a).reverse := by
   apply List.ext_getElem?
@@ -27,6 +47,7 @@ theorem reverse_residues (a : Annotation) (sw : Bool) : residues (reverse a sw) 
     have h2 : (residues a).reverse[i]? = none := by
       simp [residues_length]; omega
     rw [h1, h2]; rfl
+example : (residues (reverse demo true)).map (·.2) = [[], [], [], [⟨.int 16, 2⟩], [], [], [⟨.str ['P', 'h'], 1⟩]] := by decide
 
 theorem reverse_reverse (a : Annotation) (sw : Bool) (hint : a.internal ≠ some [])
     (hiv : ∀ l, a.intervals = some l → ∀ iv ∈ l, iv.start ≤ iv.stop) :
@@ -52,6 +73,9 @@ theorem reverse_reverse (a : Annotation) (sw : Bool) (hint : a.internal ≠ some
       simp only [Option.map_some, List.map_reverse, List.reverse_reverse, List.map_map]
       congr 1
       exact map_eq_self _ l (fun iv hiv' => reverseInterval_involutive _ iv (hiv l rfl iv hiv'))
+example : demo.internal ≠ some [] ∧ ∀ l, demo.intervals = some l → ∀ iv ∈ l, iv.start ≤ iv.stop := by
+  refine ⟨by decide, ?_⟩
+  intro l h; cases h; decide
 
 theorem shift_residues (a : Annotation) (k : Int) (hn : a.seq ≠ []) (hk : KeysOK a) :
     ∃ b, shift a k = .ok b ∧
@@ -80,7 +104,31 @@ theorem shift_residues (a : Annotation) (k : Int) (hn : a.seq ≠ []) (hk : Keys
       rw [residues_getElem?]
       rw [modsAt_shift a b e he0 he hk hint i (i - (a.seq.length - e)) (by omega) (by omega) (by split <;> omega)]
     · simp [h2]
+example : demo.seq ≠ [] ∧ KeysOK demo := ⟨by decide, demo_keysOK⟩
+example : (shift demo 2).toOption.map (fun b => (residues b).map (·.1)) = some ['P', 'T', 'I', 'D', 'E', 'P', 'E'] := by decide
+example : (shift demo (-9)).toOption.map (fun b => (residues b).map (·.2)) =
+    some [[], [], [⟨.str ['P', 'h'], 1⟩], [], [], [⟨.int 16, 2⟩], []] := by decide
 
+/-- the rotate law in terms of `List.rotateLeft` -/
+theorem shift_residues_rotate (a : Annotation) (k : Int) (hn : a.seq ≠ []) (hk : KeysOK a) :
+    ∃ b, shift a k = .ok b ∧ residues b = (residues a).rotateLeft (k % (a.seq.length : Int)).toNat := by
+  obtain ⟨b, hb, hr⟩ := shift_residues a k hn hk
+  refine ⟨b, hb, ?_⟩
+  have hlen : 0 < a.seq.length := List.length_pos_iff.mpr hn
+  have he0 : 0 ≤ k % (a.seq.length : Int) := Int.emod_nonneg _ (by omega)
+  have he : k % (a.seq.length : Int) < a.seq.length := Int.emod_lt_of_pos _ (by omega)
+  rw [hr]
+  simp only [List.rotateLeft, residues_length]
+  split
+  · have : (k % (a.seq.length : Int)).toNat = 0 := by omega
+    simp [this]
+  · have : (k % (a.seq.length : Int)).toNat % a.seq.length = (k % (a.seq.length : Int)).toNat :=
+      Nat.mod_eq_of_lt (by omega)
+    simp [this]
+
+/-- FULL STATEMENT (false on the current code when intervals are present, see `shift_identity_full_false_on_current_code`):
+    `∀ a k, a.seq ≠ [] → KeysOK a → a.internal ≠ some [] → ∃ b, shift a k = .ok b ∧ shift b (-k) = .ok a`.
+PARTIAL: it holds for every annotation without intervals. -/
 theorem shift_shift_neg_partial (a : Annotation) (k : Int) (hn : a.seq ≠ []) (hk : KeysOK a)
     (hint : a.internal ≠ some []) (hiv : a.intervals = none) :
     ∃ b, shift a k = .ok b ∧ shift b (-k) = .ok a := by
@@ -151,7 +199,11 @@ theorem shift_shift_neg_partial (a : Annotation) (k : Int) (hn : a.seq ≠ []) (
   · rw [hciv, hbiv, hiv]
   · rw [c5, g5]
   · rw [c6, g6]
+example : demoNoIv.seq ≠ [] ∧ KeysOK demoNoIv ∧ demoNoIv.internal ≠ some [] ∧ demoNoIv.intervals = none :=
+  ⟨by decide, demoNoIv_keysOK, by decide, rfl⟩
 
+/-- FULL STATEMENT (false with intervals, same witness): shifting by a multiple of the length is the identity.
+PARTIAL: without intervals. -/
 theorem shift_multiple_partial (a : Annotation) (k : Int) (hn : a.seq ≠ []) (hk : KeysOK a)
     (hint : a.internal ≠ some []) (hiv : a.intervals = none) (hmul : k % (a.seq.length : Int) = 0) :
     shift a k = .ok a := by
@@ -187,6 +239,7 @@ theorem shift_length_partial (a : Annotation) (hn : a.seq ≠ []) (hk : KeysOK a
   shift_multiple_partial a _ hn hk hint hiv Int.emod_self
 
 
+example : (shift demoNoIv 7).toOption = some demoNoIv ∧ (shift demoNoIv (-14)).toOption = some demoNoIv := by decide
 
 /-- shuffle: the residue at new position `i` is the residue `perm[i]` of the input with its own modifications; the result
 is a permutation of the modified residues; global, terminal and interval annotations are untouched -/
@@ -203,6 +256,9 @@ theorem shuffle_residues (a : Annotation) (perm : List Nat) (hn : a.seq ≠ [])
   · exact residues_of_permuted a b perm hp hseq hm
   · rw [residues_of_permuted a b perm hp hseq hm]
     exact filterMap_getElem?_perm _ perm (by rw [residues_length]; exact hp)
+example : [2, 0, 1, 6, 5, 4, 3].Perm (List.range demo.seq.length) := by decide
+example : (shuffle demo [2, 0, 1, 6, 5, 4, 3]).toOption.map (fun b => (residues b).map (·.2)) =
+    some [[], [⟨.str ['P', 'h'], 1⟩], [], [], [], [], [⟨.int 16, 2⟩]] := by decide
 
 /-- sort_residues: a permutation of the modified residues, sorted by residue letter, everything else untouched -/
 theorem sort_residues (a : Annotation) (hk : KeysOK a) :
@@ -224,6 +280,9 @@ theorem sort_residues (a : Annotation) (hk : KeysOK a) :
     exact sortBy_sorted _ _
 
 
+example : (sortResidues demo).toOption.map residues =
+    some [('D', []), ('E', []), ('E', []), ('I', []), ('P', [⟨.str ['P', 'h'], 1⟩]), ('P', []), ('T', [⟨.int 16, 2⟩])] := by
+  decide
 
 theorem reverse_globals_terminals (a : Annotation) (sw : Bool) :
     (reverse a sw).isotope = a.isotope ∧ (reverse a sw).static = a.static ∧ (reverse a sw).labile = a.labile ∧
@@ -231,6 +290,7 @@ theorem reverse_globals_terminals (a : Annotation) (sw : Bool) :
     (reverse a sw).nterm = (if sw then a.cterm else a.nterm) ∧
     (reverse a sw).cterm = (if sw then a.nterm else a.cterm) := by
   simp [reverse]
+example : (reverse demo true).nterm = demo.cterm ∧ (reverse demo false).labile = demo.labile := by decide
 
 theorem reverse_intervals (a : Annotation) (sw : Bool) :
     (reverse a sw).intervals = a.intervals.map fun l => l.reverse.map (reverseInterval a.seq.length) := rfl
@@ -245,6 +305,7 @@ theorem reverseInterval_cover (n : Int) (iv : Interval) (h : iv.start ≤ iv.sto
   refine ⟨trivial, trivial, ?_⟩
   intro i
   constructor <;> intro ⟨h2, h3⟩ <;> constructor <;> omega
+example : (reverse demo false).intervals = some [⟨2, 4, true, none⟩, ⟨4, 6, false, some [⟨.int 1, 1⟩]⟩] := by decide
 
 def shiftWitness : Annotation :=
   { seq := ['P', 'E', 'P', 'T', 'I', 'D', 'E'], intervals := some [⟨5, 7, false, some [⟨.int 1, 1⟩]⟩] }
@@ -277,6 +338,7 @@ theorem split_concat (a : Annotation) : (split a).flatMap residues = residues a 
     · rw [h]; congr 1; omega
   refine (flatMap_congr' key).trans ?_
   rw [← residues_length a, range_flatMap_drop_take]
+example : (split demo).length = 7 ∧ (split demo).map (·.labile.isSome) = [true, false, false, false, false, false, false] := by decide
 
 theorem split_getElem? (a : Annotation) (i : Nat) (hi : i < a.seq.length) :
     ∃ p, (split a)[i]? = some p ∧
@@ -313,12 +375,17 @@ theorem slice_slice (a : Annotation) (i j k l : Nat) (hij : i ≤ j) (hj : j ≤
     (hl : l ≤ j - i) (hl0 : 0 < l ∨ a.intervals = none) :
     slice (slice a (i : Int) (j : Int)) (k : Int) (l : Int) = slice a ((i + k : Nat) : Int) ((i + l : Nat) : Int) :=
   slice_slice' a i j k l hij hj hkl hl hl0
+example : slice (slice demo (1 : Nat) (5 : Nat)) (1 : Nat) (3 : Nat) = slice demo (2 : Nat) (4 : Nat) := by decide
+/-- the side condition `0 < l` is needed: an empty slice taken strictly inside an interval (outside the property's domain)
+keeps that interval when taken directly and loses it when taken in two steps -/
+example : slice (slice demo (2 : Nat) (4 : Nat)) (0 : Nat) (0 : Nat) ≠ slice demo (2 : Nat) (2 : Nat) := by decide
 
 /-- for every additive per-residue weight `w` (e.g. residue mass + masses of the residue's modifications) the total is
 unchanged by reversal -/
 theorem reverse_weight (w : Char × List Mod → Rat) (a : Annotation) (sw : Bool) :
     weight w (residues (reverse a sw)) = weight w (residues a) := by
   rw [reverse_residues]; exact weight_perm w _ _ (List.reverse_perm _)
+example : weight (fun p => (p.2.length : Rat) + 1) (residues (reverse demo false)) = 9 := by decide +kernel
 
 theorem shift_weight (w : Char × List Mod → Rat) (a : Annotation) (k : Int) (hn : a.seq ≠ []) (hk : KeysOK a) :
     ∃ b, shift a k = .ok b ∧ weight w (residues b) = weight w (residues a) ∧ (residues b).Perm (residues a) := by
@@ -374,5 +441,7 @@ theorem slice_contained_intervals (a : Annotation) (i j : Int) (L : List Interva
     · simp [hc]
     · simp [hc]
 
+example : (slice demo 1 5).intervals = some [⟨0, 2, false, some [⟨.int 1, 1⟩]⟩, ⟨2, 4, true, none⟩] ∧
+    (slice demo 3 7).intervals = some [⟨0, 2, true, none⟩] ∧ (slice demo 5 7).intervals = none := by decide
 
 end Pept.Reorder.C11
